@@ -46,6 +46,11 @@ type ClientConn struct {
 	mu      sync.Mutex
 	replyCh map[uint32]chan message.Request
 
+	// sendMu orders every outgoing message with the Disconnect: once the Disconnect has been
+	// written nothing but keep-alive is sent on this connection.
+	sendMu       sync.RWMutex
+	disconnected bool
+
 	logger log.Logger
 
 	protocolVersion string
@@ -383,7 +388,20 @@ func (c *ClientConn) Close() error {
 
 // SendDisconnectは、Disconnectメッセージを送信します。
 func (c *ClientConn) SendDisconnect(ctx context.Context, msg *message.Disconnect) error {
+	c.sendMu.Lock()
+	defer c.sendMu.Unlock()
+	c.disconnected = true
 	return c.transport.Write(msg)
+}
+
+// write writes a message unless the Disconnect has already been sent.
+func (c *ClientConn) write(tr EncodingTransport, msg message.Message) error {
+	c.sendMu.RLock()
+	defer c.sendMu.RUnlock()
+	if c.disconnected {
+		return errors.ErrConnectionClosed
+	}
+	return tr.Write(msg)
 }
 
 // SendUpstreamMetadataは、UpstreamMetadataを送信します。
@@ -482,7 +500,7 @@ func (c *ClientConn) SendUpstreamChunk(ctx context.Context, req *message.Upstrea
 	if !ok {
 		return errors.New("stream not exist")
 	}
-	err := tr.Write(req)
+	err := c.write(tr, req)
 	return err
 }
 
@@ -655,17 +673,17 @@ func (c *ClientConn) SendDownstreamCloseRequest(ctx context.Context, req *messag
 
 // SendDownstreamDataPointsAckは、DownstreamMetadataAckを送信します。
 func (c *ClientConn) SendDownstreamDataPointsAck(ctx context.Context, ack *message.DownstreamChunkAck) error {
-	return c.transport.Write(ack)
+	return c.write(c.transport, ack)
 }
 
 // SendDownstreamMetadataAckは、DownstreamMetadataAckを送信します。
 func (c *ClientConn) SendDownstreamMetadataAck(ctx context.Context, ack *message.DownstreamMetadataAck) error {
-	return c.transport.Write(ack)
+	return c.write(c.transport, ack)
 }
 
 // SendUpstreamCallは、UpstreamCallを送信します。
 func (c *ClientConn) SendUpstreamCall(ctx context.Context, call *message.UpstreamCall) error {
-	return c.transport.Write(call)
+	return c.write(c.transport, call)
 }
 
 // ReceiveUpstreamCallAckは、UpstreamCallAckを待ち受けます。
@@ -703,7 +721,13 @@ func (c *ClientConn) sendRequest(ctx context.Context, req message.Request) (mess
 	c.mu.Lock()
 	c.replyCh[req.GetRequestID()] = reply
 	c.mu.Unlock()
-	if err := c.transport.Write(req); err != nil {
+	var err error
+	if _, isPing := req.(*message.Ping); isPing {
+		err = c.transport.Write(req) // keep-alive continues after the Disconnect
+	} else {
+		err = c.write(c.transport, req)
+	}
+	if err != nil {
 		return nil, err
 	}
 	select {
